@@ -36,8 +36,12 @@ partial def selOfJson (j : J) : Sel :=
   | _ => .inline (optStr j "on") dirs (sub.natD "id") sels
 
 def varDefOfJson (j : J) : VarDef :=
-  { name := j.strD "n", type := Driver.tyOfJson (j.getD "t"),
-    default := match j.getD "d" with | .null => none | d => some (valueOfJson d) }
+  let dirs := (j.arrD "dirs").map dirOfJson
+  let dflt := match j.getD "d" with | .null => none | d => some (valueOfJson d)
+  -- the parser never yields a variable in the directives of a variable definition (`Directives[Const]`)
+  if h : dirs.all Dir.isConst = true then
+    { name := j.strD "n", type := Driver.tyOfJson (j.getD "t"), default := dflt, dirs := dirs, dirsConst := h }
+  else { name := j.strD "n", type := Driver.tyOfJson (j.getD "t"), default := dflt }
 
 def defOfJson (j : J) : Def :=
   let dirs := (j.arrD "dirs").map dirOfJson
